@@ -158,9 +158,10 @@ def _cases(draw, max_n=5000):
                            draw(st.sampled_from([-1.0, 1.0])) * 2.0 ** draw(st.integers(40, 70))]
     if "uint" not in case and draw(st.integers(0, 6)) == 0:
         case["narrow"] = draw(st.sampled_from(gen.NARROW_DTYPES))
-    if draw(st.integers(0, 3)) == 0:
+    w = draw(st.integers(0, 9))  # one band index decides both whether and which (balanced classes: a health floor failed at seed 11)
+    if w < 4:
         # the object-level wrapper get_peak_indices(asig) with a real Signal / AccSignal holding the series
-        case["obj"] = [draw(st.sampled_from(["AccSignal", "Signal", "AccSignal"])), draw(st.sampled_from(gen.REPO_DTS))]
+        case["obj"] = ["AccSignal" if w % 2 == 0 else "Signal", draw(st.sampled_from(gen.REPO_DTS))]
     return case
 
 
@@ -342,7 +343,7 @@ def _check_wrapper(ctx, kind, arg, dt, fast=False):
         oracle="reference model (exact index equality) cross-checked against the statement's validity predicate; the anchored "
                "mechanisms called directly (plateau compression, peaks of the cleaned series, deprecated alias)",
         require={"lead-plateau": 0.25, "interior-plateau-extremum": 0.10, "offset": 0.15, "n>512": 0.10, "rescaled": 0.05, "outlier": 0.05,
-                 "unsigned-dtype": 0.02, "narrow-int": 0.03, "as=int": 0.03, "wrapper=Signal": 0.05, "wrapper=AccSignal": 0.05},
+                 "unsigned-dtype": 0.02, "narrow-int": 0.03, "as=int": 0.03, "wrapper=Signal": 0.04, "wrapper=AccSignal": 0.04},
         min_nontrivial=0.3)
 def random(case, ctx):
     a, arg = series(case)
